@@ -121,6 +121,25 @@ var apiFuncs = map[string]apiFn{
 		ok := u.AdjustOffs(sipsp.PField{Offs: sipsp.OffsT(exInt(ex, "offs")), Len: sipsp.OffsT(exInt(ex, "len"))})
 		return fmt.Sprint(ok)
 	},
+	"IPdst": func(in []byte, _ map[string]any) string {
+		// every destination length 0..20 (exact capacity): a destination too short for the address is refused or left
+		// alone, never indexed beyond its length
+		out := ""
+		for n := 0; n <= 20; n++ {
+			d := make([]byte, n)
+			ok4, _, _ := sipsp.IP4Prefix(in, d)
+			c4, _, _ := sipsp.ContainsIP4(in, make([]byte, n))
+			ok6, _, _ := sipsp.IP6Prefix(in, make([]byte, n))
+			c6, o6, l6 := sipsp.ContainsIP6(in, make([]byte, n))
+			if c6 && (o6 < 0 || o6+l6 > len(in)) {
+				return "BAD ContainsIP6 span"
+			}
+			if n == 16 {
+				out = fmt.Sprint(ok4, c4, ok6, c6)
+			}
+		}
+		return out
+	},
 	"IPsig": func(in []byte, _ map[string]any) string {
 		var d4 [4]byte
 		var d16 [16]byte
@@ -259,6 +278,12 @@ func c04NonParsing(r *Run) {
 	})
 	// IP / signature helpers
 	enumStrings(r, []byte("1f:.[]x"), 0, r.pick(7, 9), nil, func(c *enumCtx, s []byte) { apiCheck(r, c, "IPsig", s, nil) })
+	enumStrings(r, []byte("1f:.[]x"), 0, r.pick(5, 6), nil, func(c *enumCtx, s []byte) { apiCheck(r, c, "IPdst", s, nil) })
+	c1 := &enumCtx{r: r, st: newStats()}
+	for _, a := range []string{"1.2.3.4", "255.255.255.255", "::1", "::", "2001:db8::1", "[::1]", "a:1.2.3.4x", "1:2:3:4:5:6:7:8", "::ffff:1.2.3.4", "x 10.0.0.1 y", "z [2001:db8::2]:5060", "fe80::1%eth0", "1:2:3:4:5:6:7::", "::2:3:4:5:6:7:8", "call-5F:10.20.0.1@host"} {
+		apiCheck(r, c1, "IPdst", []byte(a), nil)
+	}
+	r.St.merge(c1.st)
 	enumStrings(r, []byte("1:"), 10, r.pick(21, 23), nil, func(c *enumCtx, s []byte) { apiCheck(r, c, "IPsig", s, nil) })
 	enumStrings(r, append([]byte("25.;=z-"), 0x00, 0xff), 0, r.pick(5, 6), nil, func(c *enumCtx, s []byte) { apiCheck(r, c, "IPsig", s, nil) })
 }
